@@ -217,7 +217,10 @@ fn cmd_check(args: &[String]) -> i32 {
         },
         layouts_per_scenario: if id == "C11" { 3 } else { 1 },
         threads,
-        wall_limit_s: if quick { 100 } else { 1500 },
+        wall_limit_s: std::env::var("VERIF_WALL_S")
+            .ok()
+            .and_then(|v| v.parse().ok())
+            .unwrap_or(if quick { 100 } else { 1500 }),
         verif_dir: verif_dir(),
     };
     check::run_check(&cfg).exit
